@@ -380,6 +380,113 @@ pub fn rare_contexts() -> Vec<(char, String, char)> {
     v
 }
 
+/// Leaves that are too many for the deep chains: used at depth 1 only, in every context
+/// (regular and rare) that has a hole of their type.
+const RARE_LEAVES: &[(char, &[&str])] = &[
+    (
+        'S',
+        &[
+            "%macro m~(~)~;~%mend~;", "%macro m( /*c*/ ) / des='x';%mend;", "%macro m~(~)~/~store~;~%mend m~;", "%m~(~)~;", "x=%m( );",
+            "%put a/b a&b a&&b a& & 50% a%b;", "%let a=a/b&;", "x=5 % 2;", "%sysmstoreclear; %list; %run;",
+        ],
+    ),
+    (
+        'T',
+        &[
+            "a/b", "a & b", "a&&", "&", "50%", "a%b", "%str(%%)", "%str(&v%%)", "%str(%m(1)%%)", "%str('a'%%)", "%str(/*c*/%%)",
+            "%str(%()", "%str(%))", "%str(a%'b)", "%str(%\")", "%nrstr(%%)", "%nrstr(&v%%)", "%nrstr(%m(;))", "a,b", "(a,b)", "a=b",
+            "%str(%%%%)", "%str(%%%))", "%str(a%%)", "%str(%%a)",
+        ],
+    ),
+    (
+        'E',
+        &[
+            "0ffx", "1e-3", "-1", "+&v", "1.5", "^1", "~&v", "¬1", "1 ^= 2", "1 ~= 2", "1 ¬= 2", "a%", "1 ** 2", "1 >= 2", "1 <= 2", "a # b",
+            "1 | 0", "1 & 0", "a||b", "1\nand 2", "1\n+2", "a\neq b", "not\n1", "12345678901234567890",
+        ],
+    ),
+    ('F', &["1e-3", "2.5E+2", "1e", ".5", "1.", "0ffx", "1e5", "-1.5", "1.5e3", "1e-3x", "1\nand 2.5", "1.5 ^= 2", "9007199254740993"]),
+    (
+        'A',
+        &[
+            "%str(,)", "%str(%))", "a=b", "(a=b,c)", "%nrstr(&x)", "(a;b)", "'a;b'", "a/*c*/b", "%str(;)", "a%b", "a&", "&", "%", "a(b)c", "((a))",
+            "%m(a,b)", "%m(k=(1,2))", "(a,(b,c))", "a\nb", "%str(%%)",
+        ],
+    ),
+    (
+        'Q',
+        &[
+            "%str(%%)", "&&v&i", "50%", "a&", "a&&b", "%nrstr(&x)", "''", "'", "it's", "a;b", "/*c*/", "*c;", "%%", "a%%b", "%sysfunc(f(1),best.)",
+            "a\nb", "&v..b", "%m(\"a\")",
+        ],
+    ),
+    ('V', &["a&&v&i", "&v.&&w&i", "%m()&&v&i", "a&&&b", "&a.b", "a_&v", "&&&a", "a%m()b&v", "&a&&b&c", "&a.&b"]),
+    ('N', &["%%", "%'", "%(", "%)", "&v%%", "a;b", "%str(a)", "/*c*/", "%%)%("]),
+    ('O', &["5 % 2", "a ** b", "a||b", "&v..b", "'a'n", "1e-3", "0ffx", "$char8.", "a=:b", "(a,b)", "{1}", "[1]", "a<>b", "a><b", "1.", ".5"]),
+];
+
+fn rare_leaves(t: char) -> &'static [&'static str] {
+    RARE_LEAVES.iter().find(|(k, _)| *k == t).map_or(&[], |(_, v)| v)
+}
+
+/// hosts that lift a template of type `own` to statement level
+fn hosts_of(own: char) -> &'static [&'static str] {
+    match own {
+        'S' => &["{}"],
+        'T' => &["%let x~=~{};", "%put {}~;", "y=\"{}\";", "%m(~{}~)~;", "%if ~{}~%then~%put a;", "x=~{}~;"],
+        'E' => &["%if ~{}~%then~%put a;", "%let x=%eval(~{}~);", "%do i=~{}~%to 3; %end;"],
+        'A' => &["%m(~{}~)~;", "%let x=%upcase(~{}~);"],
+        'Q' => &["y=\"{}\";", "%put \"{}\";"],
+        'V' => &["%let {}~=~1;", "%global {}~;"],
+        _ => &[],
+    }
+}
+
+/// every context (regular and rare) with its hole filled by every rare leaf of the hole's type,
+/// lifted to statement level
+pub fn rare_leaf_templates() -> Vec<String> {
+    let mut out = Vec::new();
+    let mut all: Vec<(char, String, char)> = CONTEXTS.iter().map(|c| (c.0, c.1.to_string(), c.2)).collect();
+    all.extend(rare_contexts());
+    // parenthesised commas inside the arguments whose expressions mask them
+    all.push(('S', "%syscall f~(~(~a~,~{}~)~,~x~)~;".to_string(), 'F'));
+    all.push(('T', "%sysfunc(f(~(~a~,~{}~)~))".to_string(), 'F'));
+    all.push(('T', "%qscan(a b,~(~1~,~{}~))".to_string(), 'E'));
+    all.push(('T', "%substr(abc,~(~1~,~{}~))".to_string(), 'E'));
+    for l in rare_leaves('S') {
+        out.push((*l).to_string());
+    }
+    for (own, tmpl, hole) in &all {
+        let mut contents: Vec<&str> = rare_leaves(*hole).to_vec();
+        if tmpl.contains("(~a~,~{}") || tmpl.contains("(~1~,~{}") {
+            contents.extend(leaves(*hole));
+        }
+        for content in contents {
+            if tmpl.contains("{}~(") && ends_with_bare_call(content) {
+                continue;
+            }
+            // a comma in a plain text leaf would add an argument where the count is fixed
+            if *hole == 'T' && *own == 'T' && content.contains(',') && !content.contains('(') {
+                continue;
+            }
+            // "50%" directly in front of the ')' of %str would spell the escape "%)"
+            if content.ends_with('%') && tmpl.contains("str({})") {
+                continue;
+            }
+            let t = tmpl.replacen("{}", content, 1);
+            for h in hosts_of(*own) {
+                if tmpl.starts_with('"') && h.contains("\"{}\"") {
+                    continue; // a string inside a string is two strings around bare text
+                }
+                out.push(h.replacen("{}", &t, 1));
+            }
+        }
+    }
+    out.sort();
+    out.dedup();
+    out
+}
+
 fn ends_with_bare_call(s: &str) -> bool {
     let b = s.trim_end_matches(|c: char| c.is_ascii_alphanumeric() || c == '_');
     b.len() < s.len() && b.ends_with('%')
@@ -558,7 +665,8 @@ fn c12_run(cfg: &Config) -> PropRun {
     );
     report.absorb(zoo_report);
     // rare contexts with holes x statement wrappers of depth <= 1 x fillers
-    let rare = rare_templates(1);
+    let mut rare = rare_templates(1);
+    rare.extend(rare_leaf_templates());
     let rwrappers: Vec<String> = {
         let mut w = vec!["{}".to_string()];
         for c in CONTEXTS.iter().filter(|c| c.0 == 'S' && c.2 == 'S') {
@@ -598,7 +706,7 @@ fn c12_run(cfg: &Config) -> PropRun {
     report.distinct_nontrivial = ex.distinct_nontrivial.load(std::sync::atomic::Ordering::Relaxed);
     PropRun {
         report,
-        rule: format!("every derivation chain of the construct grammar G ({} contexts, 9 hole types) of depth <= {} with every gap filler of {{none, blank, blank+comment+newline, two adjacent comments, comment+blank, a run of 66 hidden tokens, NBSP, VT}}, and of depth <= {d} with one of these fillers per chain (rotating over the chain index); every ordered pair of programs of depth <= {dd} joined by each of 10 separators (blank, nothing, LF, CRLF, TAB, FF, NBSP, U+2028, NEL, commented blank); one well-formed instance of every macro statement keyword and every argument-taking built-in function inside every statement context of depth <= 2 with every filler; a context with a hole for every rarely used macro statement and for every argument position of every built-in, the hole filled with every chain of depth <= 1, inside every statement context of depth <= 1 with every filler; non-trivial = mode stack depth >= 6 reached; states/transitions = end configurations at the token boundaries of every {trace_every}th program", CONTEXTS.len(), d - 1),
+        rule: format!("every derivation chain of the construct grammar G ({} contexts, 9 hole types) of depth <= {} with every gap filler of {{none, blank, blank+comment+newline, two adjacent comments, comment+blank, a run of 66 hidden tokens, NBSP, VT}}, and of depth <= {d} with one of these fillers per chain (rotating over the chain index); every ordered pair of programs of depth <= {dd} joined by each of 10 separators (blank, nothing, LF, CRLF, TAB, FF, NBSP, U+2028, NEL, commented blank); one well-formed instance of every macro statement keyword and every argument-taking built-in function inside every statement context of depth <= 2 with every filler; a context with a hole for every rarely used macro statement and for every argument position of every built-in, the hole filled with every chain of depth <= 1, and every context filled with every leaf of a second, larger leaf set (lone % and & in text, %-escapes at the start of a %str segment, signed exponents, hex integers, symbol NOT, operands ending a line, multi-ampersand name continuations, empty parameter lists, parenthesised commas in masking arguments), inside every statement context of depth <= 1 with every filler; non-trivial = mode stack depth >= 6 reached; states/transitions = end configurations at the token boundaries of every {trace_every}th program", CONTEXTS.len(), d - 1),
         oracle: "no error at all; end-of-input configuration = ([Default], nesting 0, pending [false], no checkpoint)".into(),
     }
 }
@@ -852,6 +960,10 @@ fn operand_shapes() -> Vec<Vec<Piece>> {
         vec![p("v2ne", Kind::Word)],
         vec![p("c_eq", Kind::Word)],
         vec![masked("'s,=;'")],
+        // a lone '%' as a whole operand and at the end of one (text, never a macro trigger)
+        vec![other("%")],
+        vec![other("5%")],
+        vec![other("&v%")],
         vec![p("(", Kind::Op(T::LPAREN)), p("3", Kind::Int(3)), p("+", Kind::Op(T::PLUS)), p("4", Kind::Int(4)), p(")", Kind::Op(T::RPAREN))],
     ]
 }
@@ -880,7 +992,9 @@ fn build_expr(ops: &[usize], unary_at: Option<usize>, shape_at: (usize, usize), 
         // macro variable reference
         // (a mnemonic may be glued to the dot that terminates a macro variable reference)
         let prev_dot = v.last().is_some_and(|pc: &Piece| pc.text.ends_with('.') && pc.text.starts_with('&'));
-        let before = if op.mnemonic && fill_before.is_empty() && !prev_dot { " " } else { fill_before };
+        // '%' directly followed by '=', '^' or '~' would spell a %-quoted operator
+        let prev_pct = v.last().is_some_and(|pc: &Piece| pc.text.ends_with('%'));
+        let before = if (op.mnemonic && !prev_dot || prev_pct) && fill_before.is_empty() { " " } else { fill_before };
         let mut after = if op.mnemonic && fill_after.is_empty() { " " } else { fill_after };
         let un = unary_at.filter(|u| *u == k).map(|_| &all[all.len() - 1 - (k % 7)]);
         let after_owner_text = un.map_or(next_text.as_str(), |u| u.text);
@@ -1334,7 +1448,7 @@ fn first_significant(s: &str, from: usize) -> usize {
 fn c14_items(tier: Tier) -> Vec<Deletion> {
     let mut v: Vec<Deletion> = Vec::new();
     let q = tier == Tier::Quick;
-    let follow: &[&str] = &["", " x=1;", " %put a;", ")", ";", "\n%let b=2;"];
+    let follow: &[&str] = &["", " x=1;", " %put a;", ")", ";", "\n%let b=2;", " %until(1);", "%while(&a);", " %do;", " %to 3;", " %then;", " %m(1)", "%end;"];
     let mut add = |name: &'static str, before: String, after: String, error: E, token: T, at_end_of: Option<usize>, allowed: Vec<E>| {
         let whole = format!("{before}{after}");
         let at = match at_end_of {
@@ -1460,26 +1574,38 @@ fn c14_items(tier: Tier) -> Vec<Deletion> {
             }
             // ')' open at end of input
             if !q || f.is_empty() {
-                let body = match t {
-                    T::KwmSysfunc | T::KwmQSysfunc => "f(1)".to_string(),
-                    T::KwmScan | T::KwmQScan | T::KwmKScan | T::KwmQKScan => "a,1".to_string(),
-                    T::KwmSubstr | T::KwmQSubstr | T::KwmKSubstr | T::KwmQKSubstr => "a,1".to_string(),
-                    _ => "a".to_string(),
+                let bodies: &[&str] = match t {
+                    T::KwmSysfunc | T::KwmQSysfunc => &["f(1)", "f((a,b))", "f((a,b),c)", "f(1),best.", "f(1, (2,3))"],
+                    T::KwmScan | T::KwmQScan | T::KwmKScan | T::KwmQKScan => &["a,1", "(a,b),1", "a,(1)", "a,1,(b,c)", "a,(1,2)"],
+                    T::KwmSubstr | T::KwmQSubstr | T::KwmKSubstr | T::KwmQKSubstr => &["a,1", "(a,b),1", "a,(1)", "a,(1,2)", "a,1,(2,3)"],
+                    T::KwmEval | T::KwmSysevalf => &["1", "(1)", "(1)+(2)"],
+                    _ => &["a", "(a,b)", "a (b,c) d", "'x'", "&v(b,c)"],
                 };
-                let whole = format!("{head}{f}({f}{body}");
-                let at = whole.len();
-                add("rparen-open-at-eof", whole, String::new(), E::MissingExpectedRParen, T::RPAREN, Some(at), vec![]);
+                for body in bodies {
+                    let whole = format!("{head}{f}({f}{body}");
+                    let at = whole.len();
+                    add("rparen-open-at-eof", whole, String::new(), E::MissingExpectedRParen, T::RPAREN, Some(at), vec![]);
+                }
             }
         }
     }
     // user macro call and %syscall with ')' open at end of input
     for f in FILLERS {
-        let whole = format!("%m{f}({f}a,b=1");
-        let at = whole.len();
-        add("rparen-open-at-eof", whole, String::new(), E::MissingExpectedRParen, T::RPAREN, Some(at), vec![]);
-        let whole = format!("%do %while{f}(&i<3");
-        let at = whole.len();
-        add("rparen-open-at-eof", whole, String::new(), E::MissingExpectedRParen, T::RPAREN, Some(at), vec![]);
+        for body in ["a,b=1", "(a,b)", "k=(a,b)", "a,(b,c)", "k=(a,b),(c,d)", "a=(x;y)"] {
+            let whole = format!("%m{f}({f}{body}");
+            let at = whole.len();
+            add("rparen-open-at-eof", whole, String::new(), E::MissingExpectedRParen, T::RPAREN, Some(at), vec![]);
+        }
+        for body in ["a", "a,b", "(a,b)", "a,(b,c)", "(a,b),c", "((a,b))"] {
+            let whole = format!("%syscall f{f}({f}{body}");
+            let at = whole.len();
+            add("rparen-open-at-eof", whole, String::new(), E::MissingExpectedRParen, T::RPAREN, Some(at), vec![]);
+        }
+        for (head, body) in [("%do %while", "&i<3"), ("%do %while", "(&i<3)"), ("%do %until", "&i>3"), ("%do %until", "(&i) > (3)")] {
+            let whole = format!("{head}{f}({f}{body}");
+            let at = whole.len();
+            add("rparen-open-at-eof", whole, String::new(), E::MissingExpectedRParen, T::RPAREN, Some(at), vec![]);
+        }
     }
     // parentheses nested across the 2^8 and 2^16 thresholds, all still open at end of input
     for k in [1usize, 255, 256, 257, 65_535, 65_536, 65_537] {
